@@ -20,11 +20,15 @@ Recipe forms
   prop:   {'name', 'type', 'is_array', 'refclass', 'value', 'quals'}
   method: {'name', 'rtype', 'quals', 'params': [param]}
   param:  {'name', 'type', 'is_array', 'refclass', 'quals'}
-  forest: {'qdecls': [qdecl], 'classes': [class]  (creation order),
+  forest: {'via': 'create'|'mof'|'quiet' (how it is built; quiet = built
+           through CreateClass as a fixture, creation findings only counted),
+           'qdecls': [qdecl], 'classes': [class]  (creation order),
            'premature': index|None, 'instances': [(class name, key)],
-           'variants': masks for request spellings, 'plists': [...]}
+           'mask': bits for the request spellings, 'plists': [...],
+           'pick': int used to choose classes/flag combinations}
 """
 
+import copy
 import itertools
 
 from hypothesis import strategies as st
@@ -41,23 +45,30 @@ from . import strategies as S
 PROPERTY = 'C12'
 RULE = (
     "A case is a generated class forest (1..10 classes, depth <= 5, fan-out "
-    "<= 4, optional association classes) over 4..7 generated qualifier "
-    "declarations covering ToSubclass/Restricted x Enable/DisableOverride "
-    "(given as True/False/None) with 'any' or specific scopes, plus Key, "
-    "Override, Description, Association, In; every class draws new and "
-    "overriding (Override qualifier, optionally spelled in another case) "
-    "properties, methods and parameters and class/element/parameter level "
-    "qualifiers that repeat, change or omit the inherited ones; the forest "
-    "is created in a drawn topological order through CreateClass (resolve, "
-    "flags, enum, delete), through one compile_mof_string() of "
-    "hand-assembled MOF (mof), or grown by a history of CreateClass / "
-    "ModifyClass / DeleteClass / CreateInstance steps (history).  Requests "
-    "use case variants of the names.  flags enumerates all 27 LocalOnly x "
-    "IncludeQualifiers x IncludeClassOrigin combinations x 5 property lists "
-    "for every class.  Non-trivial = forest of depth >= 2 that contains an "
-    "override, or uses a Restricted or DisableOverride qualifier, or whose "
-    "names differ in case between declaration and use.  Distinct = "
-    "distinct recipe / step list.")
+    "<= 4, optional association classes with subclasses) over 4..7 "
+    "generated qualifier declarations covering ToSubclass/Restricted x "
+    "Enable/DisableOverride (flavors given as True/False/None) with 'any' "
+    "or specific scopes, plus Key, Override, Description, Association, In; "
+    "every class draws new and overriding (Override qualifier, optionally "
+    "spelled in another case) properties, methods and parameters and "
+    "class/element/parameter level qualifiers that repeat, change or omit "
+    "the inherited ones.  resolve: the forest is created in a drawn "
+    "topological order (optionally with one premature CreateClass before "
+    "the superclass exists) through CreateClass, or through one "
+    "compile_mof_string() of hand-assembled MOF, and the full GetClass view "
+    "of every class is compared with a reference resolver.  flags: all 27 "
+    "LocalOnly x IncludeQualifiers x IncludeClassOrigin combinations x 5 "
+    "property lists for every class.  enum: EnumerateClassNames/"
+    "EnumerateClasses for every class and None x DeepInheritance, "
+    "EnumerateInstanceNames/EnumerateInstances for every class.  delete: up "
+    "to 3 DeleteClass calls per forest.  history: CreateClass / ModifyClass "
+    "/ DeleteClass / CreateInstance steps (also invalid ones) with all "
+    "views and enumerations compared after every step.  Requests use case "
+    "variants of the names.  Non-trivial = forest of depth >= 2 that "
+    "contains an override, or uses a Restricted or DisableOverride "
+    "qualifier, or whose names differ in case between declaration and use "
+    "(delete: a subtree with more than one class was removed and other "
+    "classes remained).  Distinct = distinct recipe / step list.")
 ASSUMPTIONS = [
     "qualifier values do not carry flavors of their own (tosubclass/"
     "overridable None on CIMQualifier): flavors come from the declaration; "
@@ -318,7 +329,7 @@ class Model:
         return KEYNAME.lower() in self.view(ln)['props']
 
     # -- qualifier inheritance
-    def _merge_quals(self, own, inherited, param_over=False):
+    def _merge_quals(self, own, inherited, param_over=False, ghost=()):
         """
         own: list of qual recipes; inherited: dict of the overridden element
         (expected view).  Returns (quals, violations, unasserted).
@@ -332,18 +343,26 @@ class Model:
         loose = False
         for name, type_, v in own:
             out[lc(name)] = dict(name=name, type=type_, value=v, src='own')
+            if lc(name) in ghost:
+                # the server still shows this Restricted qualifier on the
+                # overridden element, so for the server it is restated
+                out[lc(name)]['restated'] = True
         for lq, q in (inherited or {}).items():
             if not self.tosub(lq):
-                if lq in out and not self.ovr(lq):
-                    loose = True      # Restricted + DisableOverride, restated
+                if lq in out:
+                    out[lq]['restated'] = True
+                    if not self.ovr(lq):
+                        loose = True  # Restricted + DisableOverride, restated
                 continue
             if lq in out:
                 if not self.ovr(lq):
                     if out[lq]['value'] != q['value'] or \
                             out[lq]['type'] != q['type']:
                         viol.append((q['name'], bool(q.get('restated'))))
-                    else:
-                        out[lq]['restated'] = True
+                    elif q.get('restated'):
+                        # restated again below a class that restated it
+                        self._restated_again = True
+                    out[lq]['restated'] = True
             else:
                 out[lq] = dict(q, src='inherited')
                 if param_over:
@@ -353,12 +372,12 @@ class Model:
     def _inherit_quals(self, quals):
         "qualifiers of an element the subclass does not redeclare"
         keep = {}
-        ghost = set()
+        ghost = {}
         for lq, q in quals.items():
             if self.tosub(lq):
                 keep[lq] = dict(q, src='inherited')
             else:
-                ghost.add(lq)
+                ghost[lq] = bool(q.get('restated'))
         return keep, ghost
 
     def resolve(self, spec, sup):
@@ -369,6 +388,7 @@ class Model:
         viol = []
         loose = False
         ghost_conflict = False
+        self._restated_again = False
         quals, v, lo = self._merge_quals(spec['quals'],
                                          sup['quals'] if sup else None)
         viol += [('class', spec['name'], q) for q in v]
@@ -382,7 +402,9 @@ class Model:
                 le = lc(e['name'])
                 base = inh.get(le)
                 q, v, lo = self._merge_quals(e['quals'],
-                                             base['quals'] if base else None)
+                                             base['quals'] if base else None,
+                                             ghost=base['ghost'] if base
+                                             else ())
                 viol += [(kind, e['name'], x) for x in v]
                 loose = loose or lo
                 if base and any(lc(x[0]) in base['ghost'] and
@@ -391,7 +413,7 @@ class Model:
                 el = dict(name=e['name'],
                           kind='override' if base else 'new',
                           origin=base['origin'] if base else spec['name'],
-                          quals=q, ghost=set())
+                          quals=q, ghost={})
                 if kind == 'props':
                     el.update(type=e['type'], is_array=e['is_array'],
                               refclass=e['refclass'], value=e['value'])
@@ -402,7 +424,8 @@ class Model:
                             if base else None
                         pq, v, lo = self._merge_quals(
                             x['quals'], bp['quals'] if bp else None,
-                            param_over=True)
+                            param_over=True,
+                            ghost=bp['ghost'] if bp else ())
                         viol += [('parameter', e['name'] + '.' + x['name'],
                                   y) for y in v]
                         loose = loose or lo
@@ -414,7 +437,7 @@ class Model:
                             name=x['name'], type=x['type'],
                             is_array=x['is_array'],
                             refclass=x.get('refclass'), quals=pq,
-                            ghost=set(),
+                            ghost={},
                             over=bp is not None)
                 target[le] = el
             for le, base in inh.items():
@@ -422,18 +445,19 @@ class Model:
                     continue
                 keep, ghost = self._inherit_quals(base['quals'])
                 el = dict(base, kind='inherited', quals=keep,
-                          ghost=ghost | base['ghost'])
+                          ghost=dict(base['ghost'], **ghost))
                 if kind == 'methods':
                     el['params'] = {}
                     for lp, bp in base['params'].items():
                         pk, pg = self._inherit_quals(bp['quals'])
                         el['params'][lp] = dict(bp, quals=pk,
-                                                ghost=pg | bp['ghost'],
+                                                ghost=dict(bp['ghost'], **pg),
                                                 over=False)
                 target[le] = el
         view['violations'] = viol
         view['loose'] = loose
         view['ghost_conflict'] = ghost_conflict
+        view['restated_again'] = self._restated_again
         return view
 
     def view(self, ln):
@@ -555,7 +579,7 @@ def _g_params(draw, qdecls, base):
                 name=_g_variant(draw, bp['name'], 1), type=bp['type'],
                 is_array=bp['is_array'], refclass=bp['refclass'],
                 quals=_g_quals(draw, qdecls, 'PARAMETER', bp['quals'],
-                               set(bp['quals']) | bp['ghost'])))
+                               set(bp['quals']) | set(bp['ghost']))))
         return out
     n = draw(S._I10) % 3
     for i in range(n):
@@ -598,7 +622,7 @@ def _g_class(draw, name, sup_name, sup_view, qdecls, root_key=True,
             pscope = 'REFERENCE' if base['type'] == 'reference' else \
                 'PROPERTY'
             q = _g_quals(draw, qdecls, pscope, base['quals'],
-                         set(base['quals']) | base['ghost'])
+                         set(base['quals']) | set(base['ghost']))
             q = [x for x in q if lc(x[0]) != 'override']
             q.insert(draw(S._I10) % (len(q) + 1),
                      (_g_variant(draw, 'Override', 1), 'string',
@@ -614,7 +638,7 @@ def _g_class(draw, name, sup_name, sup_view, qdecls, root_key=True,
     for le, base in inh_m.items():
         if draw(S._I10) < 3:
             q = _g_quals(draw, qdecls, 'METHOD', base['quals'],
-                         set(base['quals']) | base['ghost'])
+                         set(base['quals']) | set(base['ghost']))
             q = [x for x in q if lc(x[0]) != 'override']
             q.insert(0, ('Override', 'string',
                          _g_variant(draw, base['name'], 3)))
@@ -688,8 +712,16 @@ def _g_plists(draw):
     return out
 
 
-def g_forest(draw, max_classes=10, instances=True, assoc=True):
+def g_forest(draw, max_classes=10, instances=True, assoc=True, via=None):
+    if via is None:
+        via = 'mof' if draw(S._I10) < 3 else 'create'
     qdecls = _g_qdecls(draw)
+    if via == 'mof' or via == 'quiet':
+        # MOF cannot express partial scope dictionaries
+        for d in qdecls:
+            d['partial'] = False
+    if via == 'mof':
+        max_classes = min(max_classes, 7)
     model = Model(qdecls)
     ncls = 1 + draw(st.integers(0, max_classes - 1))
     classes = []
@@ -738,7 +770,7 @@ def g_forest(draw, max_classes=10, instances=True, assoc=True):
     classes = [classes[i] for i in order]
     premature = None
     late = [i for i, c in enumerate(classes) if c['super']]
-    if late and draw(S._I10) < 2:
+    if late and draw(S._I10) < 2 and via != 'mof':
         premature = late[draw(S._I100) % len(late)]
     insts = []
     if instances:
@@ -746,8 +778,8 @@ def g_forest(draw, max_classes=10, instances=True, assoc=True):
         for k in range(draw(S._I10) % 6 if keyed else 0):
             insts.append((_g_variant(draw, keyed[draw(S._I100) % len(keyed)],
                                      2), 'i%d' % k))
-    return dict(qdecls=qdecls, classes=classes, premature=premature,
-                instances=insts, mask=draw(_MASK), plists=_g_plists(draw),
+    return dict(via=via, qdecls=qdecls, classes=classes,
+                premature=premature, instances=insts, mask=draw(_MASK), plists=_g_plists(draw),
                 pick=draw(S._I100))
 
 
@@ -837,44 +869,82 @@ def classify(model, extra_case=False):
 # comparison of a returned class with the model
 
 CLASS_SIG = 'full:class-level-qualifier-inheritance-not-resolved'
-PARAM_SIG = 'full:parameters-of-overriding-method-not-resolved'
+PARAM_SIG = 'full:method-parameter-qualifiers-not-resolved'
 GHOST_SIG = 'full:restricted-qualifier-shown-on-inherited-element'
-RESTATED_SIG = ('full:restated-disableoverride-qualifier-loses-flavors-and-'
-                'stops-propagating')
+RESTATED_SIG = 'full:restated-qualifier-flavors-not-initialised'
 
 
 def _qdict(nocase):
     return {lc(k): q for k, q in nocase.items()}
 
 
-def cmp_quals(ctx, where, level, kind, exp, act, ghost):
+def diag(parent_act, lq, attr='tosubclass'):
+    """
+    State of qualifier lq on the element the qualifier is inherited from, as
+    the server returns it: noparent | absent | noflavor | on | off
+    """
+    if parent_act is None:
+        return 'noparent'
+    q = _qdict(parent_act).get(lq)
+    if q is None:
+        return 'absent'
+    v = getattr(q, attr)
+    return 'noflavor' if v is None else 'on' if v else 'off'
+
+
+def cmp_quals(ctx, where, level, kind, exp, act, ghost, parent_act):
     """
     exp: {lname: {'name','type','value','src'}}; act: NocaseDict of
     CIMQualifier.  level: class|property|method|parameter; kind: new|
-    override|inherited|class.
+    override|inherited|class.  parent_act: qualifiers of the same element in
+    the superclass as returned by the server (None if there is none); used
+    only to attribute a difference to its root cause.
     """
     a = _qdict(act)
     for lq in sorted(set(exp) - set(a)):
         q = exp[lq]
         if q['src'] == 'inherited':
-            if level == 'class':
+            d = diag(parent_act, lq)
+            if d == 'absent':
+                # already lost in the superclass (reported there)
+                ctx.event('cascade:qualifier-missing-upstream')
+                continue
+            if d == 'noflavor' and level == 'parameter' and \
+                    q.get('restated'):
+                # two known root causes apply (parameters are not resolved,
+                # restated qualifiers lose their flavors): reported by the
+                # unambiguous cases
+                ctx.event('ambiguous:parameter+restated')
+                continue
+            if d == 'noflavor':
+                sig = PARAM_SIG if level == 'parameter' else \
+                    RESTATED_SIG if q.get('restated') else \
+                    'full:qualifier-flavors-not-initialised:%s' % level
+            elif level == 'class':
                 sig = CLASS_SIG
-            elif q.get('param_over'):
+            elif level == 'parameter' and kind == 'override':
                 sig = PARAM_SIG
-            elif q.get('restated'):
-                sig = RESTATED_SIG
             else:
-                sig = 'full:%s-qualifier-not-propagated:%s' % (level, kind)
+                sig = 'full:%s-qualifier-not-propagated:%s:%s' % (
+                    level, kind, d)
         else:
             sig = 'full:own-qualifier-lost:%s' % level
         ctx.fail(sig, '%s: qualifier %s (%s) expected with value %r, '
                  'absent; present: %s' %
                  (where, q['name'], q['src'], q['value'], sorted(a)))
     for lq in sorted(set(a) - set(exp)):
+        sig = 'full:unexpected-qualifier:%s:%s' % (level, kind)
         if lq in ghost:
-            sig = GHOST_SIG
-        else:
-            sig = 'full:unexpected-qualifier:%s:%s' % (level, kind)
+            d = diag(parent_act, lq)
+            if d == 'off':
+                sig = GHOST_SIG
+            elif d == 'noflavor' and level == 'parameter' and ghost[lq]:
+                ctx.event('ambiguous:parameter+restated')
+                continue
+            elif d == 'noflavor':
+                sig = PARAM_SIG if level == 'parameter' else \
+                    RESTATED_SIG if ghost[lq] else \
+                    'full:qualifier-flavors-not-initialised:%s' % level
         ctx.fail(sig, '%s (%s): qualifier %s = %r is exposed but neither '
                  'declared here nor inherited with ToSubclass' %
                  (where, kind, a[lq].name, a[lq].value))
@@ -882,6 +952,11 @@ def cmp_quals(ctx, where, level, kind, exp, act, ghost):
         q = exp[lq]
         want = b_value(q['type'], q['value'])
         if a[lq].type != q['type'] or a[lq].value != want:
+            if q['src'] == 'inherited' and \
+                    diag(parent_act, lq) not in ('noparent', 'absent') and \
+                    _qdict(parent_act)[lq].value != want:
+                ctx.event('cascade:qualifier-value-wrong-upstream')
+                continue
             ctx.fail('full:qualifier-value-wrong:%s:%s' % (level, q['src']),
                      '%s: qualifier %s: expected %r (%s), got %r' %
                      (where, q['name'], want, q['src'], a[lq].value))
@@ -891,8 +966,11 @@ def _names_diff(exp, act):
     return sorted(set(exp) - set(act)), sorted(set(act) - set(exp))
 
 
-def cmp_full(ctx, model, ln, klass):
-    "klass = GetClass(LocalOnly=False, IQ=True, ICO=True) vs. the model"
+def cmp_full(ctx, model, ln, klass, sup_klass=None):
+    """
+    klass = GetClass(LocalOnly=False, IQ=True, ICO=True) vs. the model;
+    sup_klass = the same for its superclass (diagnosis only)
+    """
     v = model.view(ln)
     w = v['name']
     if lc(klass.classname) != ln:
@@ -902,10 +980,16 @@ def cmp_full(ctx, model, ln, klass):
                  (w, v['super'], klass.superclass))
     if not v['class_loose']:
         cmp_quals(ctx, w, 'class', 'class', v['quals'], klass.qualifiers,
-                  ())
+                  {}, sup_klass.qualifiers if sup_klass is not None
+                  else None)
     for kind, act, label in (('props', klass.properties, 'property'),
                              ('methods', klass.methods, 'method')):
         a = {lc(k): e for k, e in act.items()}
+        pa_ = {}
+        if sup_klass is not None:
+            pa_ = {lc(k): e for k, e in (
+                sup_klass.properties if kind == 'props'
+                else sup_klass.methods).items()}
         missing, extra = _names_diff(v[kind], a)
         for le in missing:
             ctx.fail('full:%s-missing:%s' % (label, v[kind][le]['kind']),
@@ -936,8 +1020,10 @@ def cmp_full(ctx, model, ln, klass):
                 ctx.fail('full:propagated-not-set-on-inherited-%s' % label,
                          '%s is not redeclared by %s but propagated=%r' %
                          (where, w, x.propagated))
+            px = pa_.get(le)
             cmp_quals(ctx, where, label, e['kind'], e['quals'],
-                      x.qualifiers, e['ghost'])
+                      x.qualifiers, e['ghost'],
+                      px.qualifiers if px is not None else None)
             if kind == 'props':
                 if (x.type, bool(x.is_array)) != (e['type'], e['is_array']):
                     ctx.fail('full:property-type-wrong:%s' % e['kind'],
@@ -968,10 +1054,15 @@ def cmp_full(ctx, model, ln, klass):
                                                       p['is_array']):
                         ctx.fail('full:parameter-type-wrong',
                                  '%s(%s): %s' % (where, p['name'], y.type))
+                    py = None
+                    if px is not None:
+                        py = {lc(k): z for k, z in
+                              px.parameters.items()}.get(lp)
                     cmp_quals(ctx, '%s(%s)' % (where, p['name']),
                               'parameter',
                               'override' if p['over'] else e['kind'],
-                              p['quals'], y.qualifiers, p['ghost'])
+                              p['quals'], y.qualifiers, p['ghost'],
+                              py.qualifiers if py is not None else None)
 
 
 def get_full(conn, name):
@@ -985,20 +1076,54 @@ def get_full(conn, name):
 PARTIAL_SCOPE_SIG = 'create:KeyError-for-declaration-with-partial-scopes'
 
 
-def violation_sigs(violations):
-    "signatures for an accepted DisableOverride violation, by root cause"
-    sigs = set()
-    for level, _, (_, restated) in violations:
-        if level == 'class':
-            sigs.add(CLASS_SIG)
+def _parent_quals(sup_klass, level, elem):
+    "qualifiers of the element a violation refers to, in the superclass"
+    if sup_klass is None:
+        return None
+    if level == 'class':
+        return sup_klass.qualifiers
+    if level == 'props':
+        e = sup_klass.properties.get(elem)
+        return e.qualifiers if e is not None else None
+    mname, _, pname = elem.partition('.')
+    e = sup_klass.methods.get(mname)
+    if e is None:
+        return None
+    if level == 'methods':
+        return e.qualifiers
+    x = e.parameters.get(pname)
+    return x.qualifiers if x is not None else None
+
+
+def report_violations(ctx, conn, spec, violations, how):
+    """
+    A class that changes the value of inherited DisableOverride qualifiers
+    was accepted: attribute each to its root cause by what the server holds
+    for the superclass.
+    """
+    sup = get_full(conn, spec['super'])
+    for level, elem, (qname, restated) in violations:
+        d = diag(_parent_quals(sup, level, elem), lc(qname), 'overridable')
+        if d in ('absent', 'noparent'):
+            ctx.event('cascade:qualifier-missing-upstream')
+            continue
+        if d == 'noflavor' and level == 'parameter' and restated:
+            ctx.event('ambiguous:parameter+restated')
+            continue
+        if d == 'noflavor':
+            sig = PARAM_SIG if level == 'parameter' else \
+                RESTATED_SIG if restated else \
+                'full:qualifier-flavors-not-initialised:%s' % level
+        elif level == 'class':
+            sig = CLASS_SIG
         elif level == 'parameter':
-            sigs.add(PARAM_SIG)
-        elif restated:
-            sigs.add(RESTATED_SIG)
+            sig = PARAM_SIG
         else:
-            sigs.add('create:disableoverride-violation-accepted:%s' %
-                     {'props': 'property', 'methods': 'method'}[level])
-    return sorted(sigs)
+            sig = 'create:disableoverride-violation-accepted:%s' % \
+                {'props': 'property', 'methods': 'method'}[level]
+        ctx.fail(sig, '%s(%s) was accepted although it changes the value of '
+                 'DisableOverride qualifier %s of %s %s' %
+                 (how, spec['name'], qname, level, elem))
 
 
 class Abort(Exception):
@@ -1018,6 +1143,32 @@ def _ref_override_case(model, spec):
                         lc(q[2]) == lc(p['name']):
                     return True
     return False
+
+
+ASSOC_SIG = ('create:association-subclass-with-references-rejected-unless-'
+             'Association-is-restated')
+REFCASE_SIG = ('create:reference-override-rejected-when-Override-value-'
+               'differs-in-case')
+
+
+def rejection_sig(specs, ghost_conflict, msg, restated_again=False):
+    "root cause of the rejection of a valid class (None: unclassified)"
+    if 'not allowed on non-association' in msg and \
+            any(_assoc_not_restated(s) for s in specs):
+        return ASSOC_SIG
+    if 'Override must not change' in msg and \
+            any(_ref_override_case(None, s) for s in specs):
+        return REFCASE_SIG
+    if 'Restricted in super' in msg and ghost_conflict:
+        return GHOST_SIG
+    if 'Restricted in super' in msg and restated_again:
+        # the restated DisableOverride qualifier of the superclass has lost
+        # its ToSubclass flavor and is taken for a Restricted one
+        return RESTATED_SIG
+    if 'not Association' in msg and any(s['assoc'] for s in specs):
+        # the superclass inherited Association without restating it
+        return CLASS_SIG
+    return None
 
 
 def _assoc_not_restated(spec):
@@ -1047,25 +1198,10 @@ def create_class(ctx, conn, model, spec, how='create'):
         if pv['loose'] or pv['class_loose']:
             ctx.event('rejected:restricted+disableoverride-restated')
             return False
-        if _ref_override_case(model, spec):
-            ctx.fail('create:reference-override-rejected-when-Override-'
-                     'value-differs-in-case',
-                     '%s(%s) raised %s' % (how, spec['name'], exc))
-        elif pv['ghost_conflict'] and 'Restricted in super' in str(exc):
-            ctx.fail(GHOST_SIG, '%s(%s) raised %s' % (how, spec['name'],
-                                                      exc))
-        elif spec['assoc'] and 'not Association' in str(exc):
-            # the superclass inherited Association without restating it
-            ctx.fail(CLASS_SIG, '%s(%s) raised %s' % (how, spec['name'],
-                                                      exc))
-        elif _assoc_not_restated(spec):
-            ctx.fail('create:association-subclass-with-references-rejected-'
-                     'unless-Association-is-restated',
-                     '%s(%s) raised %s' % (how, spec['name'], exc))
-        else:
-            ctx.fail('create:valid-class-rejected:%s:%s' %
-                     (how, exc.status_code_name),
-                     '%s(%s) raised %s' % (how, spec['name'], exc))
+        sig = rejection_sig([spec], pv['ghost_conflict'], str(exc),
+                            pv['restated_again']) or \
+            'create:valid-class-rejected:%s:%s' % (how, exc.status_code_name)
+        ctx.fail(sig, '%s(%s) raised %s' % (how, spec['name'], exc))
         return False
     except KeyError as exc:
         if _has_partial(model, spec) and 'not found' in str(exc):
@@ -1074,10 +1210,7 @@ def create_class(ctx, conn, model, spec, how='create'):
             raise Abort()
         raise
     if pv['violations']:
-        for sig in violation_sigs(pv['violations']):
-            ctx.fail(sig, '%s(%s) was accepted although it changes the '
-                     'value of DisableOverride qualifier(s) %s' %
-                     (how, spec['name'], pv['violations']))
+        report_violations(ctx, conn, spec, pv['violations'], how)
     if exists:
         model.replace(spec)
     else:
@@ -1085,8 +1218,28 @@ def create_class(ctx, conn, model, spec, how='create'):
     return True
 
 
+class QuietCtx:
+    """
+    Stand-in for the recording context while a forest is only being built as
+    the fixture of the flags/enum/delete sub-checks: what the creation itself
+    shows is reported by the resolve sub-check (same generator), here it is
+    only counted.
+    """
+
+    def __init__(self, ctx):
+        self.ctx = ctx
+
+    def fail(self, sig, detail, example=None):
+        self.ctx.event('build:' + sig)
+
+    def event(self, name, n=1):
+        self.ctx.event(name, n)
+
+
 def build_forest(ctx, forest, conn=None):
     "-> (conn, model); raises Abort"
+    if forest['via'] == 'quiet':
+        ctx = QuietCtx(ctx)
     model = Model(forest['qdecls'])
     if conn is None:
         conn = new_conn(forest['qdecls'])
@@ -1127,12 +1280,19 @@ def variant(name, mask, i):
 # sub-check: resolve (full view of every class equals the model)
 
 def check_views(ctx, conn, model, mask=0):
+    got = {}
     for i, ln in enumerate(model.classes):
         name = variant(model.classes[ln]['name'], mask, i)
-        cmp_full(ctx, model, ln, get_full(conn, name))
+        got[ln] = get_full(conn, name)
+    for ln in model.classes:
+        sup = model.superof(ln)
+        cmp_full(ctx, model, ln, got[ln], got.get(sup))
 
 
 def resolve_oracle(ctx, forest):
+    if forest['via'] == 'mof':
+        mof_oracle(ctx, forest)
+        return
     try:
         conn, model = build_forest(ctx, forest)
     except Abort:
@@ -1140,15 +1300,11 @@ def resolve_oracle(ctx, forest):
         return
     check_views(ctx, conn, model, forest['mask'])
     cl, nontriv = classify(model, forest['mask'] != 0)
-    ctx.case(nontrivial=nontriv, classes=cl)
+    ctx.case(nontrivial=nontriv, classes=cl + ['via:create'])
 
 
 # ---------------------------------------------------------------------------
 # sub-check: flags (every flag combination only removes information)
-
-def _strip_eq(a, b):
-    return a == b
-
 
 def cmp_filtered(ctx, model, ln, full, r, lo, iq, ico, pl, what='GetClass'):
     """
@@ -1191,11 +1347,13 @@ def cmp_filtered(ctx, model, ln, full, r, lo, iq, ico, pl, what='GetClass'):
             else:
                 want = True
             if want is True and le not in ra:
-                why = 'LocalOnly' if local else 'flags'
-                ctx.fail('flags:%s-%s-removed:LocalOnly=%s' %
-                         (ekind, label, 'on' if local else 'off'),
-                         '%s lacks %s %s (%s)' % (tag, label, fa[le].name,
-                                                  why))
+                if kind == 'props' and plset is not None:
+                    sig = 'flags:property-named-in-PropertyList-removed'
+                else:
+                    sig = 'flags:%s-%s-removed:LocalOnly=%s' % (
+                        ekind, label, 'on' if local else 'off')
+                ctx.fail(sig, '%s lacks %s %s (%s)' %
+                         (tag, label, fa[le].name, ekind))
             elif want is False and le in ra:
                 ctx.fail('flags:%s-%s-not-removed:%s' %
                          (ekind, label,
@@ -1205,7 +1363,7 @@ def cmp_filtered(ctx, model, ln, full, r, lo, iq, ico, pl, what='GetClass'):
                          '%s returns %s %s' % (tag, label, ra[le].name))
         for le in sorted(set(ra) & set(fa)):
             f, x = fa[le], ra[le]
-            g = f.copy()
+            g = copy.deepcopy(f)
             if not quals_on:
                 g.qualifiers = {}
                 if kind == 'methods':
@@ -1217,7 +1375,7 @@ def cmp_filtered(ctx, model, ln, full, r, lo, iq, ico, pl, what='GetClass'):
                 continue
             # tolerated: LocalOnly may also drop inherited qualifiers
             if quals_on and local:
-                h = x.copy()
+                h = copy.deepcopy(x)
                 h.qualifiers = g.qualifiers
                 sub = all(k in f.qualifiers and f.qualifiers[k] == q
                           for k, q in x.qualifiers.items())
@@ -1242,6 +1400,12 @@ def cmp_filtered(ctx, model, ln, full, r, lo, iq, ico, pl, what='GetClass'):
                     'kept' if ico is not True else 'changed')
             elif quals_on and _qdict(x.qualifiers) != _qdict(g.qualifiers):
                 what_ = 'qualifiers-differ'
+            if what_ == 'class-origin-missing' and \
+                    what.startswith('EnumerateClasses'):
+                ctx.fail('enum:EnumerateClasses-ignores-IncludeClassOrigin',
+                         '%s: %s %s has class_origin None' %
+                         (tag, label, x.name))
+                continue
             ctx.fail('flags:%s-differs:%s' % (label, what_),
                      '%s: %s %s is %r, in the full answer %r' %
                      (tag, label, x.name, x, f))
@@ -1446,10 +1610,8 @@ def do_delete(ctx, conn, model, name):
     for k in sorted(gone):
         try:
             conn.GetClass(before[k].classname)
-        except CIMError as exc:
-            if exc.status_code != pywbem.CIM_ERR_NOT_FOUND:
-                ctx.fail('delete:getclass-of-deleted-class:%s' %
-                         exc.status_code_name, str(exc))
+        except CIMError:
+            pass
         else:
             ctx.fail('delete:deleted-class-still-returned', k)
     for k, spec in model.classes.items():
@@ -1487,7 +1649,6 @@ def delete_oracle(ctx, forest):
         check_class_enums(ctx, conn, model, forest['mask'], targets=[None])
         check_instance_enums(ctx, conn, model, forest['mask'], both=False)
         rounds += 1
-    # a class of the forest can be created again after its deletion
     ctx.case(nontrivial=big, classes=sorted(set(cl)))
 
 
@@ -1507,10 +1668,16 @@ def forest_mof(forest):
 def mof_oracle(ctx, forest):
     model = Model(forest['qdecls'])
     bad = None
+    bads = []
+    ghost = False
+    again = False
     for spec in forest['classes']:
         pv = model.preview(spec)
         if pv['violations'] or pv['loose'] or pv['class_loose']:
             bad = pv
+            bads.append((spec, pv))
+        ghost = ghost or pv['ghost_conflict']
+        again = again or pv['restated_again']
         model.add(spec)
     for cname, key in forest['instances']:
         model.instances.append((lc(cname), key))
@@ -1521,41 +1688,23 @@ def mof_oracle(ctx, forest):
     except pywbem.MOFCompileError as exc:
         cl, nontriv = classify(model)
         if bad is not None:
-            ctx.case(nontrivial=nontriv, classes=cl + ['mof-rejected'])
+            ctx.case(nontrivial=nontriv,
+                     classes=cl + ['via:mof', 'mof-rejected'])
             return
-        if isinstance(exc, pywbem.MOFRepositoryError) and \
-                _ref_override_case_any(model):
-            ctx.fail('create:reference-override-rejected-when-Override-'
-                     'value-differs-in-case', str(exc)[:600])
-        else:
-            ctx.fail('mof:valid-mof-rejected:%s' % type(exc).__name__,
-                     '%s\n---\n%s' % (str(exc)[:600], text))
-        ctx.case(nontrivial=True, classes=cl)
+        sig = rejection_sig(list(model.classes.values()), ghost, str(exc),
+                            again) \
+            or 'mof:valid-mof-rejected:%s' % type(exc).__name__
+        ctx.fail(sig, '%s\n---\n%s' % (str(exc)[:400], text[-1500:]))
+        ctx.case(nontrivial=True, classes=cl + ['via:mof'])
         return
-    if bad is not None and bad['violations']:
-        for sig in violation_sigs(bad['violations']):
-            ctx.fail(sig, 'MOF accepted although %s' % bad['violations'])
+    for spec, pv in bads:
+        if pv['violations']:
+            report_violations(ctx, conn, spec, pv['violations'], 'mof')
     check_views(ctx, conn, model, forest['mask'])
     check_class_enums(ctx, conn, model, forest['mask'], targets=[None])
     check_instance_enums(ctx, conn, model, forest['mask'], both=False)
     cl, nontriv = classify(model, forest['mask'] != 0)
-    ctx.case(nontrivial=nontriv, classes=cl)
-
-
-def _ref_override_case_any(model):
-    return any(_ref_override_case(model, s) for s in model.classes.values())
-
-
-def mof_strategy():
-    @st.composite
-    def strat(draw):
-        f = g_forest(draw, max_classes=7)
-        # MOF cannot express a premature creation or partial scope lists
-        f['premature'] = None
-        for d in f['qdecls']:
-            d['partial'] = False
-        return f
-    return strat()
+    ctx.case(nontrivial=nontriv, classes=cl + ['via:mof'])
 
 
 # ---------------------------------------------------------------------------
@@ -1774,20 +1923,59 @@ class Machine:
 
 # ---------------------------------------------------------------------------
 
-SENSITIVITY = []
+SENSITIVITY = [
+    "_resolve_objects: copied (non-redeclared) elements no longer get "
+    "propagated=True -> resolve/full:propagated-not-set-on-inherited-"
+    "property, ...-method; flags/flags:inherited-property-not-removed:"
+    "LocalOnly",
+    "get_class: LocalOnly filter inverted for properties (if not "
+    "prop.propagated) -> flags/flags:new-property-removed:LocalOnly=on, "
+    "flags/flags:inherited-property-not-removed:LocalOnly",
+    "_get_subclass_names: recursion only for ClassName=None -> "
+    "enum/enum:classnames:DeepInheritance:missing, enum/enum:instancenames:"
+    "missing, delete/delete:classes:subtree-class-survives, delete/delete:"
+    "instances:subtree-instance-survives",
+    "filter_properties compares case-sensitively (pname not in "
+    "property_list) -> flags/flags:property-named-in-PropertyList-removed",
+    "_set_new_object: class_origin of an overriding element set to the new "
+    "class -> resolve/full:class-origin-wrong:property:override (and "
+    ":method:override, :inherited)",
+    "_resolve_qualifiers: Restricted qualifiers propagate to overriding "
+    "elements (if inh_qual.tosubclass is not None) -> resolve/full:"
+    "unexpected-qualifier:property:override, ...:method:override",
+    "_get_subclass_list_for_enums: only direct subclasses -> enum/enum:"
+    "instancenames:missing, enum/enum:instances:missing",
+    "_resolve_qualifiers: an overridable inherited qualifier replaces the "
+    "value the subclass declares -> resolve/full:qualifier-value-wrong:"
+    "property:own, ...:method:own",
+    "_remove_qualifiers leaves parameter qualifiers -> flags/flags:method-"
+    "differs:qualifiers-kept-with-IncludeQualifiers-False",
+    "DeleteClass deletes only instances whose class name equals ClassName "
+    "-> delete/delete:instances:subtree-instance-survives, history/history:"
+    "repository-content-differs-after-delete",
+    "_resolve_qualifiers: DisableOverride value check disabled -> "
+    "resolve/create:disableoverride-violation-accepted:property, ...:method",
+    "ModifyClass does not resolve a class that has a superclass -> "
+    "history/full:property-missing:inherited, history/full:class-origin-"
+    "wrong:property:new",
+]
+
+_BUDGET = (300, 3000)     # soft wall-clock stop per shard (loaded machine)
 
 SUBCHECKS = [
     Sub('resolve', strategy=forest_strategy, oracle=resolve_oracle,
-        quick=(16, 120), thorough=(16, 3000)),
+        quick=(16, 120), thorough=(16, 3000), budget=_BUDGET),
     Sub('flags', strategy=lambda: forest_strategy(max_classes=7,
-                                                  instances=False),
-        oracle=flags_oracle, quick=(16, 25), thorough=(16, 600)),
-    Sub('enum', strategy=forest_strategy, oracle=enum_oracle,
-        quick=(16, 60), thorough=(16, 1500)),
-    Sub('delete', strategy=forest_strategy, oracle=delete_oracle,
-        quick=(16, 60), thorough=(16, 1500)),
-    Sub('mof', strategy=mof_strategy, oracle=mof_oracle,
-        quick=(16, 40), thorough=(16, 1000)),
-    Sub('history', machine=Machine, quick=(16, 40), thorough=(16, 1000),
-        steps=(25, 50)),
+                                                  instances=False,
+                                                  via='quiet'),
+        oracle=flags_oracle, quick=(16, 20), thorough=(16, 500),
+        budget=_BUDGET),
+    Sub('enum', strategy=lambda: forest_strategy(via='quiet'),
+        oracle=enum_oracle, quick=(16, 50), thorough=(16, 1500),
+        budget=_BUDGET),
+    Sub('delete', strategy=lambda: forest_strategy(via='quiet'),
+        oracle=delete_oracle, quick=(16, 50), thorough=(16, 1500),
+        budget=_BUDGET),
+    Sub('history', machine=Machine, quick=(16, 30), thorough=(16, 800),
+        steps=(25, 50), budget=_BUDGET),
 ]
